@@ -96,6 +96,22 @@ SITES = {
    [r"p\.DoMove\(move\)", r"if hasCheck && s\.checkDrawRepAnd50\(p, 2\)\s*\{\s*value = ValueDraw", r"\}\s*else\s*\{\s*value = -s\.qsearch\(p, ply\+1, -beta, -alpha, isPV\)"], []),
   ("draw_test_is_repetition_or_clock", "internal/search/search.go", r"func \(s \*Search\) checkDrawRepAnd50\(",
    [r"if p\.CheckRepetitions\(i\) \|\| p\.HalfMoveClock\(\) >= 100\s*\{\s*return true\s*\}\s*return false"], []),
+  ("mate_distance_pruning_search", "internal/search/alphabeta.go", r"func \(s \*Search\) search\(",
+   [r"if Settings\.Search\.UseMDP\s*\{\s*alpha = Max\(alpha, -ValueCheckMate\+Value\(ply\)\)\s*beta = Min\(beta, ValueCheckMate-Value\(ply\)\)\s*if alpha >= beta\s*\{\s*s\.statistics\.Mdp\+\+\s*return alpha\s*\}\s*\}"], []),
+  ("mate_distance_pruning_qsearch", "internal/search/alphabeta.go", r"func \(s \*Search\) qsearch\(",
+   [r"if Settings\.Search\.UseMDP\s*\{\s*alpha = Max\(alpha, -ValueCheckMate\+Value\(ply\)\)\s*beta = Min\(beta, ValueCheckMate-Value\(ply\)\)\s*if alpha >= beta\s*\{\s*s\.statistics\.Mdp\+\+\s*return alpha\s*\}\s*\}"], []),
+  ("stand_pat_is_a_lower_bound_only_out_of_check", "internal/search/alphabeta.go", r"func \(s \*Search\) qsearch\(",
+   [r"if !hasCheck\s*\{", r"staticEval = s\.evaluate\(p, ply\)",
+    r"if Settings\.Search\.UseQSStandpat && staticEval > alpha\s*\{\s*if staticEval >= beta\s*\{\s*s\.statistics\.StandpatCuts\+\+\s*return staticEval\s*\}\s*alpha = staticEval\s*\}\s*bestNodeValue = staticEval\s*\}"], []),
+  ("pvs_null_window_then_full_window_research", "internal/search/alphabeta.go", r"func \(s \*Search\) search\(",
+   [r"if !Settings\.Search\.UsePVS \|\| movesSearched == 0\s*\{\s*value = -s\.search\(p, newDepth, ply\+1, -beta, -alpha, true, true\)\s*\}\s*else\s*\{",
+    r"value = -s\.search\(p, lmrDepth, ply\+1, -alpha-1, -alpha, false, true\)",
+    r"if value > alpha && !s\.stopConditions\(\)\s*\{\s*if lmrDepth < newDepth\s*\{\s*s\.statistics\.LmrResearches\+\+\s*value = -s\.search\(p, newDepth, ply\+1, -beta, -alpha, true, true\)\s*\}\s*else if value < beta\s*\{\s*s\.statistics\.PvsResearches\+\+\s*value = -s\.search\(p, newDepth, ply\+1, -beta, -alpha, true, true\)"], []),
+  ("fail_soft_update_beta_cut_alpha_raise", "internal/search/alphabeta.go", r"func \(s \*Search\) search\(",
+   [r"if value > bestNodeValue\s*\{\s*bestNodeValue = value\s*bestNodeMove = move\s*if value > alpha\s*\{\s*if value >= beta\s*\{", r"ttType = BETA\s*break\s*\}",
+    r"savePV\(move, s\.pv\[ply\+1\], s\.pv\[ply\]\)\s*alpha = value\s*ttType = EXACT"], []),
+  ("mate_and_stalemate_values", "internal/search/alphabeta.go", r"func \(s \*Search\) search\(",
+   [r"if p\.HasCheck\(\)\s*\{\s*s\.statistics\.Checkmates\+\+\s*bestNodeValue = -ValueCheckMate \+ Value\(ply\)", r"s\.statistics\.Stalemates\+\+\s*bestNodeValue = ValueDraw"], []),
   ("leaf_is_evaluation_or_quiescence", "internal/search/alphabeta.go", r"func \(s \*Search\) search\(",
    [r"if depth == 0 \|\| ply >= MaxDepth\s*\{\s*return s\.qsearch\(p, ply, alpha, beta, isPV\)"], []),
   # AlphaBeta.root_rel / root_fn: every iteration searches the root with the full window (ValueMin, ValueMax) =
